@@ -139,8 +139,9 @@ class RINGReaderError(RINGError):
     """
     Exception raised when input does not conform to RING syntax.
     """
-    def __init__(self, message):
-        self.message = message
+    def __init__(self, *message):
+        # Several call sites pass the message in two or three pieces.
+        self.message = ' '.join(str(piece) for piece in message)
 
     def __str__(self):
         return self.message
